@@ -9,7 +9,9 @@ use std::collections::VecDeque;
 pub const NS: [usize; 7] = [0, 1, 2, 3, 5, 8, 33];
 pub const OBJ_CAP: usize = 6;
 pub const ID_CAP: u32 = 260;
-pub const N_CLOSURES: u8 = 3;
+/// 0 move-through, 1 replace by a fresh token, 2 clone-and-keep, 3 move-through written as
+/// `|t: Tok| -> Tok {..}`, 4 a function path instead of a closure (cannot exit early)
+pub const N_CLOSURES: u8 = 5;
 pub const N_SHAPES: u8 = 18;
 
 #[derive(Serialize, Deserialize, Clone, Copy, Debug, PartialEq)]
@@ -69,9 +71,20 @@ pub enum FOp {
     BForget { o: usize },
     ADrop { o: usize, fault: u32 },
     MapNew { o: usize, closure: u8, exit: Exit },
-    FromFnNew { n: usize, exit: Exit },
+    FromFnNew {
+        n: usize,
+        exit: Exit,
+        /// the `from_fn_!([T; N] => |i| ..)` form
+        #[serde(default)]
+        typed: bool,
+    },
     MapOld { o: usize, exit: Exit },
-    FromFnOld { n: usize, exit: Exit },
+    FromFnOld {
+        n: usize,
+        exit: Exit,
+        #[serde(default)]
+        typed: bool,
+    },
     Destructure { shape: u8 },
     HDrop { t: usize },
     /// self-contained: ArrayConsumer<u32,N>/ArrayBuilder<u32,N>::copy() futures
@@ -433,8 +446,9 @@ impl Model {
                 let Some(MObj::Arr(n, ids)) = self.objs[s].take() else { unreachable!() };
                 let (kind, k) = exit.split();
                 let k = k as usize;
-                let fires = kind != 0 && k >= 1 && k <= n;
                 let closure = closure % N_CLOSURES;
+                // a function path cannot exit early
+                let fires = kind != 0 && k >= 1 && k <= n && closure != 4;
                 let mut out: Vec<u32> = Vec::new();
                 for (i, id) in ids.iter().enumerate() {
                     let call = i + 1;
@@ -449,7 +463,7 @@ impl Model {
                         break;
                     }
                     match closure {
-                        0 => out.push(*id),
+                        0 | 3 | 4 => out.push(*id),
                         1 => {
                             self.exp[*id as usize] = (1, 1);
                             out.extend(self.alloc(1, (0, 0)));
@@ -472,7 +486,7 @@ impl Model {
                     Exp::NewObj { ids: out, parents: if closure == 2 { Some(ids) } else { None } }
                 }
             }
-            FromFnNew { n, exit } | FromFnOld { n, exit } => {
+            FromFnNew { n, exit, .. } | FromFnOld { n, exit, .. } => {
                 if !self.room() || !NS.contains(n) {
                     return Exp::Skip;
                 }
@@ -649,9 +663,9 @@ pub fn generate(rng: &mut Rng, cfg: &GenCfg) -> FCase {
             21 => FOp::BForget { o },
             22 => FOp::ADrop { o, fault: fault(rng, 8) },
             23 => FOp::MapNew { o, closure: rng.below(N_CLOSURES as u64) as u8, exit: gen_exit(rng, 8, p_fault) },
-            24 => FOp::FromFnNew { n, exit: gen_exit(rng, n, p_fault) },
+            24 => FOp::FromFnNew { n, exit: gen_exit(rng, n, p_fault), typed: rng.chance(1, 2) },
             25 => FOp::MapOld { o, exit: gen_exit(rng, 8, p_fault) },
-            26 => FOp::FromFnOld { n, exit: gen_exit(rng, n, p_fault) },
+            26 => FOp::FromFnOld { n, exit: gen_exit(rng, n, p_fault), typed: rng.chance(1, 2) },
             27 => FOp::Destructure { shape: rng.below(N_SHAPES as u64) as u8 },
             28 => FOp::HDrop { t: rng.below(8) as usize },
             29 => FOp::CopyScenario { n, front: rng.below(5) as usize, back: rng.below(5) as usize },
@@ -762,10 +776,14 @@ pub fn sweep_cases() -> Vec<(String, FCase)> {
                         FCase { plan: vec![FOp::NewArray { n }, FOp::MapNew { o: 0, closure, exit: mk(k) }] },
                     ));
                 }
-                out.push((format!("from_fn_/{ename}/N={n}/k={k}"), FCase { plan: vec![FOp::FromFnNew { n, exit: mk(k) }] }));
+                for typed in [false, true] {
+                    out.push((format!("from_fn_/typed={typed}/{ename}/N={n}/k={k}"), FCase { plan: vec![FOp::FromFnNew { n, exit: mk(k), typed }] }));
+                }
                 if ename != "continue" {
                     out.push((format!("map!/{ename}/N={n}/k={k}"), FCase { plan: vec![FOp::NewArray { n }, FOp::MapOld { o: 0, exit: mk(k) }] }));
-                    out.push((format!("from_fn!/{ename}/N={n}/k={k}"), FCase { plan: vec![FOp::FromFnOld { n, exit: mk(k) }] }));
+                    for typed in [false, true] {
+                        out.push((format!("from_fn!/typed={typed}/{ename}/N={n}/k={k}"), FCase { plan: vec![FOp::FromFnOld { n, exit: mk(k), typed }] }));
+                    }
                 }
             }
         }
